@@ -1,0 +1,8 @@
+//go:build !verif
+
+// Package verifhook: scheduling points for the verification harness. Without the build tag `verif`
+// Yield is an empty function (inlined away); the build is behaviourally identical to one without the calls.
+package verifhook
+
+// Yield marks a point between two critical sections. No-op in this build.
+func Yield(point string) {}
